@@ -121,7 +121,12 @@ pub fn generate(run_seed: u64, quick: bool) -> Scenario {
             p.tables = true;
             p.lists = true;
         }
-        let mut bytes = gen_doc(&mut wl, p);
+        let mut bytes = if wl.chance(1, 4) {
+            // realistic markup harvested from the repository's own test inputs
+            gen_doc_from_seeds(&mut wl, target, &p.mix, p.huge_nums)
+        } else {
+            gen_doc(&mut wl, p)
+        };
         if class == 1 {
             corrupt_events = corrupt(&mut fr, &mut bytes);
         }
@@ -351,7 +356,7 @@ pub fn generate(run_seed: u64, quick: bool) -> Scenario {
 
     // Selector matching is legitimately quadratic in nesting depth when a
     // descendant selector has to walk to the root for every element (N x d/2
-    // steps; 2*10^8 at d = 20000).  Deep nests combined with CSS keep d <= 3000 so
+    // steps; 2*10^8 at d = 20000).  Deep nests combined with CSS keep d <= 1000 so
     // that such work stays far below the fuel; the linear deep-selector case
     // lives in the corpus (selector-descendant-deep-recursion).
     let has_css = !config.css.is_empty()
@@ -361,9 +366,9 @@ pub fn generate(run_seed: u64, quick: bool) -> Scenario {
         });
     if has_css {
         if let DocSpec::Nest { depth, closes, .. } = &mut doc {
-            if *depth > 3000 {
-                *depth = 3000;
-                *closes = (*closes).min(3000);
+            if *depth > 1000 {
+                *depth = 1000;
+                *closes = (*closes).min(1000);
             }
         }
     }
